@@ -3,6 +3,9 @@
 //! predict) and emits Coq cases for C14/Corr.v (bit-exact fit model for Gini and entropy trees of
 //! 2..6 classes - entropy with the run time's `f32::log2` values passed as a checked table -,
 //! prediction / importance / iteration models for all trees, exact checker `chk_tree` as oracle).
+//! Sample weights: none, dyadic (all f32 sums exact: exact oracle), full-mantissa and decimal-palette
+//! weights (streams F, G: the oracle compares exact rational weights with the f32 decisions of the code
+//! up to the stated allowance n * 2^-23 of the node's weight and requires finite decreases / importances).
 use linfa::prelude::*;
 use linfa::{Dataset, Label};
 use linfa_trees::{DecisionTree, SplitQuality, TreeNode};
@@ -32,6 +35,9 @@ struct Dump {
 }
 
 const UNKNOWN: usize = 9999;
+/// allowance for the reported impurity decrease when the f32 weight sums round: 2^-18 + this * n * 2^-23
+/// (the same constant as [dec_slack_factor] of C14/Corr.v)
+const DEC_SLACK_FACTOR: f64 = 2.0;
 
 fn count_nodes<F: linfa::Float, L: Label + std::fmt::Debug>(n: &TreeNode<F, L>) -> usize {
     1 + n.children().into_iter().map(|c| c.as_ref().map_or(0, |b| count_nodes(b))).sum::<usize>()
@@ -158,15 +164,17 @@ fn nsplits(t: &Tr) -> usize {
     match t { Tr::Leaf { .. } => 0, Tr::Node { l, r, .. } => 1 + nsplits(l) + nsplits(r) }
 }
 
-/// Rust-side recomputation of the entropy decrease (f64) for every split node, samples routed with `<`
-fn entropy_check(t: &Tr, le: bool, rows: &[usize], x: &[Vec<f64>], y: &[usize], w: &[f32], ncls: usize, worst: &mut f64) {
+/// Rust-side recomputation of the criterion's decrease (f64) for every split node, samples routed with `<=`
+/// (`<` for the code before 472304f)
+fn decrease_check(t: &Tr, le: bool, rows: &[usize], x: &[Vec<f64>], y: &[usize], w: &[f32], ncls: usize, entropy: bool, worst: &mut f64) {
     if let Tr::Node { f, thr, dec, l, r, .. } = t {
         let (sl, sr): (Vec<usize>, Vec<usize>) = rows.iter().partition(|&&i| if le { x[i][*f] <= *thr } else { x[i][*f] < *thr });
         let ent = |s: &[usize]| -> (f64, f64) {
             let mut fr = vec![0.0f64; ncls];
             for &i in s { fr[y[i]] += w[i] as f64; }
             let n: f64 = fr.iter().sum();
-            (fr.iter().map(|&v| { let p = v / n; if p > 0.0 { -p * p.log2() } else { 0.0 } }).sum::<f64>(), n)
+            if entropy { (fr.iter().map(|&v| { let p = v / n; if p > 0.0 { -p * p.log2() } else { 0.0 } }).sum::<f64>(), n) }
+            else { (1.0 - fr.iter().map(|&v| { let p = v / n; p * p }).sum::<f64>(), n) }
         };
         let (ep, np) = ent(rows);
         let (el, _) = ent(&sl);
@@ -175,8 +183,28 @@ fn entropy_check(t: &Tr, le: bool, rows: &[usize], x: &[Vec<f64>], y: &[usize], 
         let exact = ep - (wf * er + (1.0 - wf) * el);
         let e = (exact - dec).abs();
         if !(e <= *worst) { *worst = e; }
-        entropy_check(l, le, &sl, x, y, w, ncls, worst);
-        entropy_check(r, le, &sr, x, y, w, ncls, worst);
+        decrease_check(l, le, &sl, x, y, w, ncls, entropy, worst);
+        decrease_check(r, le, &sr, x, y, w, ncls, entropy, worst);
+    }
+}
+
+/// Statistics only (not part of the check): does the returned tree satisfy the weight limits / the leaf
+/// majority in EXACT weights (f64 sums of a few f32 values are exact), or only up to the rounding allowance?
+/// Returns (some split side below min_weight_leaf in exact weights, some leaf predicts a label that is not an exact majority).
+fn allowance_stats(t: &Tr, le: bool, rows: &[usize], x: &[Vec<f64>], y: &[usize], w: &[f32], ncls: usize, mwl: f32, out: &mut (bool, bool)) {
+    match t {
+        Tr::Leaf { p, .. } => {
+            let mut fr = vec![0.0f64; ncls];
+            for &i in rows { fr[y[i]] += w[i] as f64; }
+            if *p < ncls && fr.iter().any(|v| *v > fr[*p]) { out.1 = true; }
+        }
+        Tr::Node { f, thr, l, r, .. } => {
+            let (sl, sr): (Vec<usize>, Vec<usize>) = rows.iter().partition(|&&i| if le { x[i][*f] <= *thr } else { x[i][*f] < *thr });
+            let wsum = |s: &[usize]| s.iter().map(|&i| w[i] as f64).sum::<f64>();
+            if wsum(&sl) < mwl as f64 || wsum(&sr) < mwl as f64 { out.0 = true; }
+            allowance_stats(l, le, &sl, x, y, w, ncls, mwl, out);
+            allowance_stats(r, le, &sr, x, y, w, ncls, mwl, out);
+        }
     }
 }
 
@@ -193,6 +221,11 @@ struct Shadow<'a, F: linfa::Float> {
     desc: bool,
     sorted: Vec<Vec<(usize, F)>>,
     log2: std::collections::BTreeMap<u32, u32>,
+    /// candidates scored while some class weight of the right table was a negative rounding residue;
+    /// `neg_first`: that candidate was the first one scored in its node (an `x != 0` guard in entropy()
+    /// would then leave a NaN score that no later candidate beats)
+    neg_scored: u32,
+    neg_first: u32,
 }
 
 enum Sh<F> { Leaf { d: usize, p: usize }, Node { d: usize, f: usize, thr: F, dec: F, l: Box<Sh<F>>, r: Box<Sh<F>> } }
@@ -244,6 +277,10 @@ impl<'a, F: linfa::Float> Shadow<'a, F> {
                 let next = self.sorted[f][i + 1].1;
                 if (sv - next).abs() < F::cast(1e-5) { continue; }
                 if wr < self.mwl || wl < self.mwl { continue; }
+                if right.iter().any(|e| e.map_or(false, |v| v < 0.0)) {
+                    self.neg_scored += 1;
+                    if best.is_none() { self.neg_first += 1; }
+                }
                 let (ls, rs) = (self.impurity(&right), self.impurity(&left));
                 let wf = wr / total;
                 let score = wf * ls + (1.0 - wf) * rs;
@@ -282,8 +319,8 @@ fn sh_prune<F: linfa::Float>(t: Sh<F>) -> (Tr, Option<usize>) {
     }
 }
 
-/// (shadow tree, log2 table); `None` when the shadow itself panics
-fn shadow_fit<F: linfa::Float>(x: &[Vec<f64>], y: &[usize], w: &[f32], ncls: usize, p: &Params, desc: bool) -> Option<(Tr, Vec<(u32, u32)>)> {
+/// (shadow tree, log2 table, (neg_scored, neg_first)); `None` when the shadow itself panics
+fn shadow_fit<F: linfa::Float>(x: &[Vec<f64>], y: &[usize], w: &[f32], ncls: usize, p: &Params, desc: bool) -> Option<(Tr, Vec<(u32, u32)>, (u32, u32))> {
     let xf: Vec<Vec<F>> = x.iter().map(|r| r.iter().map(|v| F::cast(*v)).collect()).collect();
     let (y2, w2, p2) = (y.to_vec(), w.to_vec(), p.clone());
     guarded(std::panic::AssertUnwindSafe(move || {
@@ -293,9 +330,9 @@ fn shadow_fit<F: linfa::Float>(x: &[Vec<f64>], y: &[usize], w: &[f32], ncls: usi
             pairs.sort_by(|a, b| a.1.partial_cmp(&b.1).unwrap_or(std::cmp::Ordering::Greater));
             pairs
         }).collect();
-        let mut sh = Shadow { x: &xf, y: &y2, w: &w2, ncls, entropy: p2.entropy, max_depth: p2.max_depth, mws: p2.mws, mwl: p2.mwl, mid: F::cast(p2.mid), desc, sorted, log2: Default::default() };
+        let mut sh = Shadow { x: &xf, y: &y2, w: &w2, ncls, entropy: p2.entropy, max_depth: p2.max_depth, mws: p2.mws, mwl: p2.mwl, mid: F::cast(p2.mid), desc, sorted, log2: Default::default(), neg_scored: 0, neg_first: 0 };
         let t = sh.node(&vec![true; xf.len()], 0);
-        (sh_prune(t).0, sh.log2.iter().map(|(a, b)| (*a, *b)).collect::<Vec<_>>())
+        (sh_prune(t).0, sh.log2.iter().map(|(a, b)| (*a, *b)).collect::<Vec<_>>(), (sh.neg_scored, sh.neg_first))
     })).ok()
 }
 
@@ -513,7 +550,7 @@ fn main() {
         };
         let n = x.len();
         let (w, wt) = pick_weights(&mut r, n);
-        let ent = ncls > 2 && r.chance(0.5);
+        let ent = r.chance(if ncls > 2 { 0.5 } else { 0.35 });
         let mut p = pick_params(&mut r, n, ent);
         p.mid = (p.mid.max(2e-7) as f32) as f64;   // representable in f32 and above f32::EPSILON (parameter guard)
         if adjacent { p.max_depth = Some(1 + r.below(4) as usize); }
@@ -544,6 +581,93 @@ fn main() {
         specs.push(Spec { x, d, y, ncls, w: Some(w), p, lt, stream: "F_rounding_weights", kind: format!("kind_{}", kind), extra_tags: vec!["weights_full_mantissa".into()] });
     }
 
+    // ---- stream G: sample weights from a decimal palette (0.3, 1.0, 0.1, 0.7, ...). They are not dyadic,
+    //      so the f32 running class weights of the sweep cancel to tiny residues of EITHER sign when the
+    //      last observation of a class moves to the left ((0.3 + 1.0) - 0.3 - 1.0 = -6e-8), and the f32
+    //      running weights differ from the exact sums around min_weight_leaf values that are themselves
+    //      sums of palette weights. Rows lie in class blocks along feature 0 (with ties and light first
+    //      rows, so that the first candidate scored in a node is often the one at which a class has just
+    //      left the right side). The oracle compares with exact rational weights up to the allowance
+    //      n * 2^-23 of the node's weight and requires every reported decrease / importance to be finite.
+    let ng = if thorough { 400 } else { 90 };
+    for k in 0..ng {
+        let mut r = rng.fork();
+        let palette = [0.3f32, 1.0, 0.1, 0.7, 0.2, 0.6, 1.3, 0.9];
+        let tie_mode = k % 4 == 1;
+        let (x, y, w, ncls, d): (Vec<Vec<f64>>, Vec<usize>, Vec<f32>, usize, usize) = if k == 0 {
+            // the smallest instance: class 0 = {0.3, 1.0} leaves the right side at the first admissible candidate
+            ((1..=5).map(|v| vec![v as f64]).collect(), vec![0, 0, 1, 1, 1], vec![0.3, 1.0, 1.0, 1.0, 1.0], 2, 1)
+        } else if tie_mode {
+            // two classes at the same place whose f32 weight sums are EQUAL while the exact sums differ
+            // (0.1 + 0.2 rounds up to f32 0.3; 0.7 + 0.6 and 0.3 + 1.0 round down to f32 1.3; 3 * 0.3 + 0.1
+            // rounds down to 1.0): the modal class of that leaf is decided by a tie of rounded sums
+            let templates: [(&[f32], &[f32]); 5] = [(&[0.1, 0.2], &[0.3]), (&[0.7, 0.6], &[1.3]), (&[0.3, 0.3, 0.3, 0.1], &[1.0]), (&[0.3, 1.0], &[1.3]), (&[0.2, 0.1], &[0.3])];
+            let (ga, gb) = *r.pick(&templates);
+            let ncls = 2 + r.below(2) as usize;
+            let (a, b) = if r.chance(0.5) { (0usize, 1usize) } else { (1, 0) };
+            let (mut x, mut y, mut w) = (Vec::new(), Vec::new(), Vec::new());
+            let rows_a: Vec<(usize, f32)> = ga.iter().map(|v| (a, *v)).collect();
+            let rows_b: Vec<(usize, f32)> = gb.iter().map(|v| (b, *v)).collect();
+            let mut rows = if r.chance(0.5) { [rows_a, rows_b].concat() } else { [rows_b, rows_a].concat() };
+            if r.chance(0.3) { let i = r.below(rows.len() as u64) as usize; let j = r.below(rows.len() as u64) as usize; rows.swap(i, j); }
+            for (c, v) in rows { x.push(vec![1.0]); y.push(c); w.push(v); }
+            // a separable block of another (or the same) class further right
+            let far = if ncls == 3 { 2 } else { r.below(2) as usize };
+            for j in 0..(1 + r.below(3)) { x.push(vec![4.0 + j as f64]); y.push(far); w.push(*r.pick(&[1.0f32, 0.7, 2.0])); }
+            (x, y, w, ncls, 1)
+        } else {
+            let ncls = 2 + r.below(3) as usize;
+            let d = 1 + r.below(2) as usize;
+            let mut order: Vec<usize> = (0..ncls).collect();
+            for i in (1..ncls).rev() { order.swap(i, r.below(i as u64 + 1) as usize); }
+            if r.chance(0.3) { let c0 = order[0]; order.push(c0); }          // a class may come back later
+            let (mut x, mut y, mut w) = (Vec::new(), Vec::new(), Vec::new());
+            let mut pos = 0.0f64;
+            for c in order.iter() {
+                let m = 1 + r.below(4) as usize;
+                for j in 0..m {
+                    if !(j > 0 && r.chance(0.3)) { pos += *r.pick(&[1.0f64, 1.0, 0.5, 2.0]); }
+                    let mut row = vec![pos];
+                    for _ in 1..d { row.push(r.range(0, 2) as f64); }
+                    x.push(row);
+                    y.push(if r.chance(0.08) { r.below(ncls as u64) as usize } else { *c });
+                    w.push(if j == 0 { *r.pick(&[0.3f32, 0.3, 0.1, 0.7, 0.2, 0.6]) } else if r.chance(0.6) { 1.0 } else { *r.pick(&palette) });
+                }
+            }
+            // half of the cases: rows in random order (the class sums of label_frequencies_with_mask add in row order)
+            if r.chance(0.5) {
+                for i in (1..x.len()).rev() { let j = r.below(i as u64 + 1) as usize; x.swap(i, j); y.swap(i, j); w.swap(i, j); }
+            }
+            // every class index below ncls that is absent is fine (class tables have absent keys)
+            (x, y, w, ncls, d)
+        };
+        let n = x.len();
+        let ent = k == 0 || r.chance(0.7);
+        let p = Params {
+            entropy: ent,
+            max_depth: if k == 0 { None } else { *r.pick(&[None, None, Some(1), Some(2), Some(3)]) },
+            mws: if k == 0 { 2.0 } else { *r.pick(&[2.0f32, 2.0, 1.0, 3.5]) },
+            mwl: if k == 0 { 1.0 } else if tie_mode { *r.pick(&[0.001f32, 0.3, 0.5, 1.0]) } else if r.chance(0.5) {
+                // the f32 running weight of the left side after j moves along feature 0 (the value the sweep
+                // compares with min_weight_leaf; its exact counterpart may lie on the other side), or the
+                // f32 value of total - that
+                let mut idx: Vec<usize> = (0..n).collect();
+                idx.sort_by(|a, b| x[*a][0].partial_cmp(&x[*b][0]).unwrap());
+                let j = 1 + r.below((n - 1).max(1) as u64) as usize;
+                let total: f32 = w.iter().sum();
+                let mut wl = 0.0f32;
+                let mut wr = total;
+                for &i in idx.iter().take(j) { wl += w[i]; wr -= w[i]; }
+                if r.chance(0.5) { wl } else { wr.max(0.001) }
+            } else { *r.pick(&[1.0f32, 1.0, 0.5, 1.3, 0.6, 2.0, 2.3, 0.001]) },
+            mid: if k == 0 { 1e-5 } else { *r.pick(&[1e-5f64, 1e-5, 1e-3, 0.02]) },
+        };
+        let lt = if k == 0 { 0 } else if ncls == 2 { *r.pick(&[0u64, 1, 2, 3, 5, 6, 4]) } else { *r.pick(&[0u64, 1, 3, 5, 6, 4]) };
+        let mut p = p;
+        if lt == 4 { p.mid = (p.mid.max(2e-7) as f32) as f64; }
+        specs.push(Spec { x, d, y, ncls, w: Some(w), p, lt, stream: "G_cancelling_weights", kind: if tie_mode { "rounded_sum_ties".into() } else { "class_blocks".into() }, extra_tags: vec!["weights_decimal_palette".into()] });
+    }
+
     // ---- crash isolation: a stack overflow or abort inside the library cannot be caught in-process.
     //      A child process (`--dry`) runs every fit first; the ids at which it dies are observations.
     if args.extra.iter().any(|a| a == "--dry") {
@@ -564,6 +688,8 @@ fn main() {
     let crashed = find_crashers(&args, specs.len() as u64);
     let mut out = Out::new(&args.out, args.shards, "C14.Corr", "case", args.only);
     let mut worst_entropy = 0.0f64;
+    let mut worst_rounded = 0.0f64;
+    let mut worst_rounded_ratio = 0.0f64;
     for (id, s) in specs.iter().enumerate() {
         let id = id as u64;
         if !out.wanted(id) { continue; }
@@ -648,14 +774,33 @@ fn main() {
                 }
                 let splits = nsplits(&f.tree);
                 out.bump(&format!("splits_{}", if splits == 0 { "0" } else if splits < 3 { "1to2" } else if splits < 8 { "3to7" } else { "ge8" }));
-                if s.p.entropy && splits > 0 {
+                // sample weights whose f32 sums are exact (multiples of 1/4 up to 2^14; the same predicate as
+                // [exact_sums] of C14/Corr.v) get no rounding allowance; otherwise n * 2^-23 of the node's weight
+                let exact_sums = wts.iter().all(|v| *v >= 0.0 && *v <= 16384.0 && (*v * 4.0).fract() == 0.0);
+                let slack = if exact_sums { 0.0 } else { n as f64 / 8388608.0 };
+                let dec_tol = 3.814697265625e-6 + DEC_SLACK_FACTOR * slack;
+                if splits > 0 {
                     let mut worst = 0.0;
                     let rows: Vec<usize> = (0..n).collect();
-                    entropy_check(&f.tree, repaired, &rows, &s.x, &s.y, &wts, s.ncls, &mut worst);
-                    if !(worst <= 3.814697265625e-6) {
+                    decrease_check(&f.tree, repaired, &rows, &s.x, &s.y, &wts, s.ncls, s.p.entropy, &mut worst);
+                    if s.p.entropy && !(worst <= dec_tol) {
                         out.rust_fail(id, 32, &tagrefs, &format!("reported entropy decrease differs from the recomputed one by {:e}", worst), &desc);
                     }
-                    if worst > worst_entropy && worst <= 3.814697265625e-6 { worst_entropy = worst; }
+                    if s.p.entropy && worst > worst_entropy && worst <= dec_tol { worst_entropy = worst; }
+                    if !exact_sums && worst.is_finite() {
+                        // calibration of the allowance: error of the reported decrease in units of n * 2^-23
+                        if worst > worst_rounded { worst_rounded = worst; }
+                        let ratio = (worst - 3.814697265625e-6).max(0.0) / slack;
+                        if ratio > worst_rounded_ratio { worst_rounded_ratio = ratio; }
+                    }
+                }
+                if !exact_sums {
+                    out.bump("weights_with_rounding_allowance");
+                    let mut need = (false, false);
+                    let rows: Vec<usize> = (0..n).collect();
+                    allowance_stats(&f.tree, repaired, &rows, &s.x, &s.y, &wts, s.ncls, s.p.mwl, &mut need);
+                    if need.0 { out.bump("allowance_needed_for_min_weight_leaf"); }
+                    if need.1 { out.bump("allowance_needed_for_leaf_majority"); }
                 }
                 // the model of fit runs for every tree; for the entropy criterion it needs the values of
                 // f32::log2 (collected by the shadow implementation, checked in Coq)
@@ -665,11 +810,13 @@ fn main() {
                 let asc = sh(false);
                 let mut log2tab: Vec<(u32, u32)> = Vec::new();
                 match &asc {
-                    Some((t, tab)) => {
+                    Some((t, tab, (neg_scored, neg_first))) => {
+                        if *neg_scored > 0 { out.bump("negative_residue_scored_cases"); out.bump(if s.p.entropy { "negative_residue_scored_entropy_cases" } else { "negative_residue_scored_gini_cases" }); }
+                        if *neg_first > 0 { out.bump("negative_residue_first_candidate_cases"); if s.p.entropy { out.bump("negative_residue_first_candidate_entropy_cases"); } }
                         if tree_term(t) != tree_term(&f.tree) { out.bump("shadow_differs_from_library"); }
                         if model && s.p.entropy { log2tab = tab.clone(); }
                         if s.ncls > 2 && splits > 0 {
-                            if let Some((t2, _)) = sh(true) {
+                            if let Some((t2, _, _)) = sh(true) {
                                 if tree_term(&t2) != tree_term(t) {
                                     out.bump(if shape_term(&t2) != shape_term(t) { "class_order_sensitive_structure" } else { "class_order_sensitive_bits" });
                                     out.bump(&format!("class_order_sensitive_{}", ltname));
@@ -711,5 +858,7 @@ fn main() {
         }
     }
     out.bump_by("worst_accepted_entropy_decrease_error_1e9", (worst_entropy * 1e9) as u64);
-    out.finish("streams: A exhaustive 1-D datasets over values {0,1,2} x two classes (n<=3 all, n=4 every 5th); B random two-class Gini datasets from 6 families (lattice with duplicates/conflicts, blobs, noise, constant features, values closer than 1e-5, half-integer lattice) x weights (none/dyadic/with zeros) x parameter grid; C the same families with 2..6 classes, both criteria, usize/offset usize/bool/String/decimal String/Option<usize> labels; D neighbouring doubles at large magnitude; E f32 features; F 3..6 classes with full-mantissa sample weights (f32 weight sums round). For every case: full fit compared bit for bit with the Gallina model (entropy: f32::log2 values passed as a table checked against interval enclosures) + exact checker + prediction/importance/iteration models. A case is non-trivial when the fitted tree has at least one split; distinct = distinct (data, labels, weights, parameters) hashes");
+    out.bump_by("worst_decrease_error_with_rounding_weights_1e9", (worst_rounded * 1e9) as u64);
+    out.bump_by("worst_decrease_error_beyond_2p-18_in_permille_of_n_2p-23", (worst_rounded_ratio * 1e3) as u64);
+    out.finish("streams: A exhaustive 1-D datasets over values {0,1,2} x two classes (n<=3 all, n=4 every 5th); B random two-class Gini datasets from 6 families (lattice with duplicates/conflicts, blobs, noise, constant features, values closer than 1e-5, half-integer lattice) x weights (none/dyadic/with zeros) x parameter grid; C the same families with 2..6 classes, both criteria, usize/offset usize/bool/String/decimal String/Option<usize> labels; D neighbouring doubles at large magnitude; E f32 features; F 3..6 classes with full-mantissa sample weights (f32 weight sums round); G class blocks with decimal-palette weights (0.3, 1.0, 0.1, ...: running class weights cancel to residues of either sign, min_weight_leaf on sums of palette weights; exact-weight oracle with the allowance n * 2^-23 of the node's weight). For every case: full fit compared bit for bit with the Gallina model (entropy: f32::log2 values passed as a table checked against interval enclosures) + exact checker + prediction/importance/iteration models. A case is non-trivial when the fitted tree has at least one split; distinct = distinct (data, labels, weights, parameters) hashes");
 }
